@@ -142,6 +142,19 @@ func TestVerifC02Gating(t *testing.T) {
 				default:
 					end = vgen.Midnight(now).AddDate(0, 0, -rapid.IntRange(1, 19).Draw(t, "recentAge"))
 				}
+				// often a second file of a week that already has one (another program run that week)
+				if rapid.IntRange(0, 2).Draw(t, "sameWeek") == 0 {
+					var open []string
+					for wk, w := range weeks {
+						if !w.built && len(w.files) > 0 {
+							open = append(open, wk)
+						}
+					}
+					sort.Strings(open)
+					if len(open) > 0 {
+						end = weeks[open[rapid.IntRange(0, len(open)-1).Draw(t, "whichWeek")]].end
+					}
+				}
 				if w := weeks[end.Format("2006-01-02")]; w != nil && w.built {
 					continue // the week already has a report; adding files to it is C07's subject
 				}
@@ -158,7 +171,8 @@ func TestVerifC02Gating(t *testing.T) {
 				nfile++
 				f := &vmodel.CountFile{Build: vmodel.Build{Program: "cmd/go", Version: "go1.22.1", GoVersion: "go1.22.1", GOOS: "linux", GOARCH: "amd64"},
 					Begin: begin, End: end, Kind: "ok", Counts: map[string]uint64{"a/b": uint64(nfile)},
-					Base: fmt.Sprintf("go@go1.22.1-go1.22.1-linux-amd64-%s_%d.v1.count", begin.Format("2006-01-02"), nfile)}
+					// (a drawn prefix decouples directory order from the begin dates)
+					Base: fmt.Sprintf("%sgo@go1.22.1-go1.22.1-linux-amd64-%s_%d.v1.count", rapid.SampledFrom([]string{"", "a", "m", "z"}).Draw(t, "namePrefix"), begin.Format("2006-01-02"), nfile)}
 				f.Bytes = vgen.EncodeCountFile(f)
 				vuWriteFiles(dir, []*vmodel.CountFile{f})
 				wk := f.Week()
